@@ -212,14 +212,67 @@ union Pick
 route choose(Child, Pick, Void)
 '''
 
+# spec set 3: a route whitelist over types that reference each other in cycles and carry custom annotations
+SPEC_F = '''namespace tree
+
+import perms
+
+struct Folder
+    name String
+        @perms.KindaNoteworthy
+    entries List(Entry)
+    owner Owner?
+
+struct Entry
+    parent Folder?
+    shares List(Share)
+    title perms.ImportantString?
+
+struct Owner
+    email String
+        @perms.ReallyNoteworthy
+    shares List(Share)
+
+struct Share
+    owner Owner
+    note perms.VeryImportantString?
+    level Int32 = 1
+        @perms.Audit2
+
+struct Unused
+    x Int32
+'''
+
+SPEC_G = '''namespace aroutes
+
+import tree
+
+route list_folder(tree.Folder, tree.Entry, Void)
+
+route get_owner(tree.Owner, tree.Share, Void)
+
+route share(tree.Share, Void, Void)
+
+route entry(tree.Entry, tree.Folder, Void)
+
+route unused(tree.Unused, Void, Void)
+'''
+WHITELIST_3 = {'route_whitelist': {'aroutes': ['list_folder', 'get_owner', 'share', 'entry']}, 'datatype_whitelist': {}}
+
+
+def whitelist_for(k=0):
+    return WHITELIST_3 if k == 2 else None
+
 
 def spec_set(k=0):
     specs = [('stone_cfg.stone', STONE_CFG), ('files.stone', SPEC_A), ('common.stone', SPEC_B), ('users.stone', SPEC_C)]
-    if k % 2 == 1:
+    if k >= 1:
         specs.append(('routes_only.stone', SPEC_D))
         # sets and dicts on the way to the output: inherited omitted callers, several custom annotations of one
         # annotation type through an alias chain, annotated union members
         specs.append(('perms.stone', SPEC_E))
+    if k == 2:
+        specs += [('aroutes.stone', SPEC_G), ('tree.stone', SPEC_F)]
     return specs
 
 
@@ -257,12 +310,12 @@ ROWS = [
 ]
 
 
-def run_row(row, specs, outdir, manifest=False, attrs_all=True):
+def run_row(row, specs, outdir, manifest=False, attrs_all=True, whitelist=None):
     """Compile specs and run one backend row into outdir.  Returns (files: {relpath: bytes}, manifest list or None)."""
     from stone.frontend.frontend import specs_to_ir
     from stone.compiler import Compiler
     name, args, prep = row
-    api = specs_to_ir(list(specs))
+    api = specs_to_ir(list(specs), route_whitelist_filter=whitelist)
     if not attrs_all:
         for ns in api.namespaces.values():
             for r in ns.routes:
